@@ -54,19 +54,38 @@ def branchOf (t : Tab) : Tab.Op → String
     else if (filterTo t.n fun i => (t.row i).x q).length > 1 then "remove:det-many" else "remove:det-one"
   | .ptrace _ _ => "ptrace"
 
+/-- the extended ops: `measx:q:o` (`measure_x`), `measy:q:o` (`measure_y`), `xmeas:q:o` (`x_measurement_gate` /
+    `Stabilizer.apply_x_measurement`); everything else is a base op -/
+def parseOpX (op : String) : Option Tab.OpX :=
+  let parts := splitChar ':' op
+  let name := parts.headD ""
+  let arg (k : Nat) : Nat := ((parts.getD (k+1) "").toNat?).getD 0
+  let argB (k : Nat) : Bool := (parts.getD (k+1) "") = "1"
+  match name with
+  | "measx" => some (.measX (arg 0) (argB 1))
+  | "measy" => some (.measY (arg 0) (argB 1))
+  | "xmeas" => some (.xMeasGate (arg 0) (argB 1))
+  | _ => (parseOp op).map .base
+
+def branchOfX (t : Tab) : Tab.OpX → String
+  | .base op => branchOf t op
+  | .measX q _ => if ((t.hGate q).pivot q).isSome then "measx:random" else "measx:det"
+  | .xMeasGate q _ => if ((t.hGate q).pivot q).isSome then "xmeas:random" else "xmeas:det"
+  | .measY q _ => if (((t.sdgGate q).hGate q).pivot q).isSome then "measy:random" else "measy:det"
+
 /-- one op of `tab.run`; ops are `name:arg:arg…` -/
 def stepOp (s : RunSt) (ops : String) : Except Err RunSt :=
-  match parseOp ops with
+  match parseOpX ops with
   | none => .error .value
   | some op =>
-    match s.t.applyOp op with
+    match s.t.applyOpX op with
     | .error e => .error e
     | .ok (t', out) =>
       .ok { t := t'.norm
             outs := match out with
               | some (o, rnd) => s.outs ++ [b01 o ++ (if rnd then "r" else "d")]
               | none => s.outs
-            brs := s.brs ++ [branchOf s.t op] }
+            brs := s.brs ++ [branchOfX s.t op] }
 
 def run (a : Args) : String :=
   let t := tabOf a
